@@ -370,6 +370,10 @@ pub struct Runner
     /* rules whose command failed in the previous build (identity), if no user op since */
     pub failed_last : Vec<Identity>,
     pub invocations : usize,
+    /* how a rule identity maps to the name of its history file.  Only the C19 engine sets it (that
+       naming is the protocol it tests); without it the harness does not know which rule lost its
+       memory when a single history file disappears, and forgets everything (sound for C02). */
+    pub namer : Option<fn(&Identity) -> String>,
 }
 
 fn file_reader<'a>(disk : &'a Disk) -> impl Fn(&str) -> Option<Vec<u8>> + 'a
@@ -402,6 +406,7 @@ impl Runner
             cleaned_since_fresh : false,
             failed_last : vec![],
             invocations : 0,
+            namer : None,
         };
         r.set_rules(&case.rules.clone());
         r
@@ -421,6 +426,18 @@ impl Runner
         for (path, text) in self.case.rulefile_paths().iter().zip(texts.iter())
         {
             self.world.user_write(path, text.as_bytes());
+        }
+    }
+
+    /* a single history file was deleted or damaged: the rule it belonged to has lost its memory */
+    fn forget_history_file(&mut self, name : Option<String>)
+    {
+        match (self.namer, name)
+        {
+            (Some(f), Some(n)) => self.record.retain(|id, _| f(id) != n),
+            (Some(_), None) => {},
+            // which rule that was is not the harness's business: forget everything
+            (None, _) => self.record.clear(),
         }
     }
 
@@ -502,12 +519,14 @@ impl Runner
                     DirPart::HistoryFile(pick) =>
                     {
                         let files = self.world.snapshot().0.files_under(&history_dir());
+                        let mut gone = None;
                         if files.len() > 0
                         {
-                            self.world.user_delete(&files[pick as usize % files.len()].0);
+                            let path = files[pick as usize % files.len()].0.clone();
+                            self.world.user_delete(&path);
+                            gone = Some(path[history_dir().len() + 1..].to_string());
                         }
-                        // which rule lost its memory is not the harness's business: forget everything
-                        self.record.clear();
+                        self.forget_history_file(gone);
                     },
                     DirPart::Table => self.world.user_delete(&table_path()),
                 }
@@ -538,8 +557,9 @@ impl Runner
                         };
                         self.world.user_put_raw(&path, &new);
                     }
+                    let gone = if table { None } else { Some(path[history_dir().len() + 1..].to_string()) };
+                    if !table { self.forget_history_file(gone); }
                 }
-                self.record.clear();
                 self.user_op_happened();
                 None
             },
